@@ -99,6 +99,9 @@ def run(chk, facts, tier):
     for v in decl[:1]:
         c = next(n for n in v['tree'].walk() if n.k == 'ConditionalOperator')
         cond, a, b2 = c.c
+        cond = strip_casts(cond)
+        if cond.k == 'UnaryOperator' and cond.o == '!' and cond.c:
+            cond, a, b2 = strip_casts(cond.c[0]), b2, a      # `!secondary ? primary : secondary`
         ok_c = 'is_secondary_service' in (cond.d.get('qual') or '') and cond.n == 'value'
         chk.obligation('declaration-type-witness', 'service.hpp generate_attribute<service_defintion_tag>::attr', 'type = has_option<is_secondary_service> ? %s : %s' % (strip_casts(a).n, strip_casts(b2).n),
                        ok_c and strip_casts(a).n == 'secondary_service' and strip_casts(b2).n == 'primary_service', 'a secondary service must get the «Secondary Service» declaration type and a primary one «Primary Service»', key='declaration type')
